@@ -108,6 +108,14 @@ int main(int argc, char **argv) {
             for (int i = 0; i < 64; i++) check_phase(rng.u32(), M);
             snprintf(cell, sizeof cell, "allM:M=%d", M); out.cell(cell);
         }
+        // every power of two above 2^15 up to 2^30 (2^31 does not fit the int32 argument): boundaries, range ends, random phases
+        if (shard == 0) for (int lgM = 16; lgM <= 30; lgM++) {
+            int32_t M = (int32_t) 1 << lgM;
+            VH_OP("modSwitchFromTorus32:M=2^%d", lgM);
+            boundaries(M, true); check_roundtrip_mu(M);
+            for (int i = 0; i < 200000; i++) check_phase(rng.u32(), M);
+            snprintf(cell, sizeof cell, "allM:M=2^%d", lgM); out.cell(cell);
+        }
         out.sample(J().s("mode", "allM: boundary phases (k, k+1/2)*2^32/M +-3, range ends, all mu").i("maxM", maxM).u("exact_ties_seen", n_ties));
     } else if (mode == "conv") {
         // dtot32(t32tod(x)) == x for all / stratified x ; dtot32(d+k) == dtot32(d)
